@@ -222,6 +222,10 @@ def _run(case, F, site, work):
                     F.items.append([f"C20/{loop}/completes/{kind}/agent_test/{type(e).__name__}", f"{type(e).__name__}: {str(e)[:300]}",
                                     {"algo": algo, "where": f"{os.path.basename(frames[-1].filename)}:test",
                                      "traceback": "".join(_tb.format_exception(e))[-1200:]}, True])
+                elif loop == "ma_on" and E == 0 and case["obs"] == "discrete":
+                    # one root class with several crash sites: 0-dim Discrete observations of a non-vectorised multi-agent env
+                    F.items.append([f"C20/{loop}/completes/{kind}/discrete_scalar_observations", f"{type(e).__name__}: {str(e)[:300]}",
+                                    {"algo": algo, "traceback": "".join(_tb.format_exception(e))[-1200:]}, True])
                 else:
                     F.exc(f"C20/{loop}/completes/{kind}", e, algo=algo, obs=case["obs"], case_envs=E)
                 return
